@@ -12,9 +12,9 @@ import (
 	"strings"
 
 	"github.com/ipfs/go-cid"
-	"github.com/ipld/go-ipld-prime/datamodel"
 	ipldprime "github.com/ipld/go-ipld-prime"
 	"github.com/ipld/go-ipld-prime/codec/dagcbor"
+	"github.com/ipld/go-ipld-prime/datamodel"
 	cidlink "github.com/ipld/go-ipld-prime/linking/cid"
 	"github.com/ipld/go-ipld-prime/node/basicnode"
 	"github.com/storacha/go-ucanto/core/dag/blockstore"
@@ -75,7 +75,6 @@ func utokenCoq(m *udm.UCANModel) string {
 	return fmt.Sprintf("(mkU %s %s %s %s [%s] %s %s %s %s %s)", hxs(m.V), hx(m.Iss), hx(m.Aud), hx(m.S),
 		strings.Join(caps, "; "), prf, coqOptZ(m.Exp), fct, coqOptStr(m.Nnc), nbf)
 }
-
 
 // utokenCoqFromBytes renders the token root block (decoded generically, independent of the
 // library's data model binding) as the Gallina record Formats.utoken
@@ -204,7 +203,10 @@ func c07Alterations() []c07Alteration {
 			m.Att = m.Att[1:]
 			return true
 		}},
-		{"prf", func(m *udm.UCANModel, o *Prin) bool { m.Prf = append(append([]ipld.Link{}, m.Prf...), fakeLink(55)); return true }},
+		{"prf", func(m *udm.UCANModel, o *Prin) bool {
+			m.Prf = append(append([]ipld.Link{}, m.Prf...), fakeLink(55))
+			return true
+		}},
 		{"exp", func(m *udm.UCANModel, o *Prin) bool {
 			e := 4102444801
 			if m.Exp != nil {
